@@ -22,7 +22,7 @@ enum class Target : uint8_t { kX86 = 0, kX64 = 1, kA64 = 2 };
 static inline Arch arch_of(Target t) { return t == Target::kX86 ? Arch::kX86 : t == Target::kX64 ? Arch::kX64 : Arch::kAArch64; }
 static inline const char* target_name(Target t) { return t == Target::kX86 ? "x86" : t == Target::kX64 ? "x64" : "a64"; }
 
-enum class OpKind : uint8_t { kNone, kGp32, kGp64, kGp8, kGp16, kXmm, kYmm, kA64X, kA64W, kA64V, kImm, kLabel, kMem };
+enum class OpKind : uint8_t { kNone, kGp32, kGp64, kGp8, kGp16, kXmm, kYmm, kZmm, kA64X, kA64W, kA64V, kImm, kLabel, kMem };
 
 struct MemSpec {
   uint8_t form = 0;      // 0 [base+disp], 1 [base+index<<shift+disp], 2 [label+disp], 3 [abs], 4 a64 [base, #off]
@@ -46,6 +46,7 @@ struct Step {
   StepKind kind = StepKind::kInst;
   uint32_t inst_id = 0;
   uint32_t inst_options = 0;
+  uint8_t extra_reg = 0;            // x86: 1..7 = AVX-512 mask register k1..k7 set through set_extra_reg() before the call
   uint8_t nops = 0;
   OperandSpec ops[4];
   uint32_t a = 0, b = 0, c = 0;     // label indexes / sizes / alignment / section index
